@@ -916,6 +916,12 @@ func main() {
 				bigCase(g, o, scratch)
 			case i%20 == 9:
 				refuseCase(g, o, scratch)
+			case k == 2:
+				jencCase(g, o)
+			case k == 5:
+				jdecCase(g, o, scratch)
+			case k == 8:
+				jescCase(g, o)
 			case k < 3:
 				encCase(g, o)
 			case k < 6:
